@@ -29,7 +29,7 @@ class P(Profile):
     n_max = 5
     apps_max = 1
     progs_max = 2
-    proc_ops = ()
+    proc_ops = ('exit',)
     user_ops = ()
     fault_ops = ('crash', 'restart', 'restart', 'cut', 'isolate', 'heal', 'heal_all', 'boot')
     sv_failure = ('CONTINUE', 'RESYNC')
@@ -38,8 +38,8 @@ class P(Profile):
     warmups = (0, 0, 40, 60)
     behaviours = False
     wait_exit = 0.0
-    running_failure = ('CONTINUE', 'RESTART_PROCESS')
-    sequences = (0, 1)
+    running_failure = ('CONTINUE', 'RESTART_PROCESS', 'STOP_APPLICATION', 'RESTART_APPLICATION')
+    sequences = (1, 1, 0)
     startsecs = (0, 1)
 
 
@@ -71,52 +71,59 @@ def make_monitors(episode):
 
 
 class RetentionMonitor(Monitor):
-    """(c): Master agreed at the end of the warm-up; only other instances crash / restart afterwards."""
+    """(c) "A running Master that is the only one recognised is kept when instances join or leave".
+
+    For every instance X (per incarnation): when X replaces a non-empty Master m by another non-empty Master m2, either
+    X saw m leave RUNNING since it adopted it, or some other instance declared a Master different from m in the
+    meantime (the Master was not the only one recognised). Otherwise the change is a violation."""
 
     def __init__(self, episode):
-        self.episode = episode
-        self.master = None
-        self.applicable = False
+        self.current = {}      # (idx, inc) -> (master, time adopted)
+        self.left_running = {} # (idx, inc, ident) -> last time ident left RUNNING in the view of X
+        self.declared = []     # (time, declaring idx, master)
+        self.latest = {}       # idx -> (last declared master, incarnation)
+        self.findings = []
+        self.applicable = 0
 
-    def attach(self, runner):
-        self.runner = runner
+    def on_instance_state(self, inst, identifier, new_state):
+        if new_state.name != 'RUNNING':
+            self.left_running[(inst.idx, inst.incarnation, identifier)] = inst.world.now + inst.world.micro * 1e-6
 
-    def on_warmup_end(self, world):
-        self._snapshot(world)
-
-    def _snapshot(self, world):
-        live = [i for i in world.instances if i.alive]
-        if len(live) < 2:
+    def on_publication(self, inst, ptype, body):
+        if ptype.name != 'STATE':
             return
-        views = [live_view(i) for i in live]
-        masters = {v['master'] for v in views}
-        if len(masters) == 1 and '' not in masters and all(v['state'] == 'OPERATION' for v in views) \
-                and len(live) == len(world.instances):
-            self.master = next(iter(masters))
-            m = world.by_identifier(self.master)
-            ok = True
-            for rec in self.episode['steps']:
-                for op in rec.get('ops', []):
-                    if op[0] in ('cut', 'isolate', 'heal', 'heal_all'):
-                        ok = False
-                    elif op[0] in ('crash', 'restart', 'boot') and (op[1] % len(world.instances)) == m.idx:
-                        ok = False
-            self.applicable = ok
+        w = inst.world
+        now = w.now + w.micro * 1e-6
+        key = (inst.idx, inst.incarnation)
+        master = body['master_identifier']
+        prev = self.current.get(key)
+        self.latest[inst.idx] = (master, inst.incarnation)
+        if master:
+            self.declared.append((now, inst.idx, master))
+        if not master:
+            return          # '' is a transient of the election; the comparison is made on the next non-empty value
+        if prev is None:
+            self.current[key] = (master, now)
+            return
+        m, since = prev
+        if master == m:
+            return
+        self.current[key] = (master, now)
+        left = self.left_running.get((inst.idx, inst.incarnation, m))
+        m_lost = left is not None and left >= since
+        # Masters recognised by the others: declared since X adopted m, or still declared now by a live instance
+        others = [d for d in self.declared if d[0] >= since and d[0] < now and d[2] != m and d[1] != inst.idx]
+        for j, (mj, incj) in self.latest.items():
+            other = w.instances[j]
+            if j != inst.idx and other.alive and other.incarnation == incj and mj not in ('', m):
+                others.append((now, j, mj))
+        self.applicable += 1
+        if not m_lost and not others:
+            self.findings.append(('master-not-kept', f't={w.now} {inst.nick} replaced Master {m} (adopted at t={since:.0f}, '
+                                  f'seen RUNNING ever since, the only Master declared by anybody) by {master}'))
 
     def finish(self, world):
-        if not self.applicable:
-            return []
-        m = world.by_identifier(self.master)
-        out = []
-        for comp, clique in components(world):
-            if m in comp and clique:
-                for i in comp:
-                    v = live_view(i)
-                    if v['master'] != self.master:
-                        out.append(('master-not-kept', f'Master {self.master} agreed after warm-up, untouched since; '
-                                    f'{i.nick} now reports {v["master"] or "none"} in {v["state"]}'))
-                        break
-        return out
+        return list(self.findings)
 
 
 def expected_clean_master(episode):
@@ -166,7 +173,7 @@ def classify(runner, monitors, episode):
     conv, acts, tracker, retention = monitors
     classes = fault_classes(runner)
     if retention.applicable:
-        classes.append('retention-applicable')
+        classes.append('master-change-examined')
     if expected_clean_master(episode) is not None:
         classes.append('clean-election')
     if len(acts.declared) >= 2:
@@ -194,8 +201,9 @@ class PRetention(P):
     """agreed Master after a full warm-up, then only crashes / restarts (retention oracle applicable when they spare
     the Master)"""
     fault_ops = ('crash', 'restart', 'restart', 'boot')
-    warmups = (60,)
-    late_boot = 0.0
+    sync_sets = ('TIMEOUT', 'LIST,TIMEOUT', 'CORE,TIMEOUT', 'TIMEOUT,USER')
+    warmups = (45, 60)
+    late_boot = 0.5
     n_min = 3
 
 
